@@ -15,6 +15,7 @@ package tty
 
 import (
 	"fmt"
+	"io"
 
 	"github.com/ProjectSerenity/firefly/kernel/zzverif/vlib"
 )
@@ -161,6 +162,33 @@ type c17Op struct {
 	data  []byte
 	x, y  uint32
 	state State
+	// copied: the bytes of a Write operation reach the terminal through io.Copy from a reader that hands them out in
+	// short reads (a line or a packet at a time, as io.Reader permits; the early boot log is drained into the
+	// terminal that way)
+	copied bool
+}
+
+// c17ShortReader returns its data in reads of 1..7 bytes whatever the size of the buffer it is given.
+type c17ShortReader struct {
+	data []byte
+	k    int
+}
+
+func (r *c17ShortReader) Read(p []byte) (int, error) {
+	if len(r.data) == 0 {
+		return 0, io.EOF
+	}
+	r.k++
+	n := 1 + (r.k*5+len(r.data))%7
+	if n > len(r.data) {
+		n = len(r.data)
+	}
+	if n > len(p) {
+		n = len(p)
+	}
+	copy(p, r.data[:n])
+	r.data = r.data[n:]
+	return n, nil
 }
 
 func (o c17Op) String() string {
@@ -483,7 +511,7 @@ func c17GenOps(r *vlib.Rand, g *c17GenCfg) []c17Op {
 				if n == 1 && r.Bool() {
 					ops = append(ops, c17Op{kind: c17OpWriteByte, data: seg[:1]})
 				} else {
-					ops = append(ops, c17Op{kind: c17OpWrite, data: seg[:n]})
+					ops = append(ops, c17Op{kind: c17OpWrite, data: seg[:n], copied: n <= 4096 && r.Chance(1, 10)})
 				}
 				seg = seg[n:]
 			}
@@ -500,6 +528,13 @@ func c17GenOps(r *vlib.Rand, g *c17GenCfg) []c17Op {
 func (o c17Op) applyVT(t *VT) string {
 	switch o.kind {
 	case c17OpWrite:
+		if o.copied {
+			n, err := io.Copy(t, &c17ShortReader{data: o.data})
+			if err != nil || n != int64(len(o.data)) {
+				return fmt.Sprintf("io.Copy of %d bytes into the terminal returned (%d, %v)", len(o.data), n, err)
+			}
+			break
+		}
 		n, err := t.Write(o.data)
 		if err != nil || n != len(o.data) {
 			return fmt.Sprintf("Write of %d bytes returned (%d, %v)", len(o.data), n, err)
